@@ -152,3 +152,6 @@ Theorem C17_hutch_exact_mean : forall (R : Type) (RR : Ring R) (divn : R -> nat 
   divn (dsum (blocks n bs 0%Z A probe m) i) (it (blocks n bs 0%Z A probe m) * bs) = A i i.
 Proof. exact @hutch_exact_mean. Qed.
 Print Assumptions C17_hutch_exact_mean.
+Example C17_divn_satisfiable : forall m x, 0 < m -> Z.div (nmul m x) (Z.of_nat m) = x.
+Proof. exact divn_Z_ok. Qed.
+Print Assumptions C17_divn_satisfiable.
